@@ -110,6 +110,15 @@ def check_case(case) -> Result:
         if pt.span_to_sequence(s, (a, b, 0)) != st_:
             r.fail('span_to_sequence describes the same peptide', 'C07/span_to_sequence-differs', span=[a, b], peptide=st_, **ctx)
             break
+    # an equal annotation object whose modification dictionary was filled in another order gives the same peptides
+    if pep['internal']:
+        d = prot.dict()
+        d['internal_mods'] = {k: d['internal_mods'][k] for k in sorted(d['internal_mods'], reverse=True)}
+        twin = pt.create_annotation(**d)
+        out_t = list(pt.digest(twin, rx, return_type='str', **kw))
+        if out_t != out['str']:
+            r.fail('digesting an equal annotation object gives the same peptides as digesting the string',
+                   'C07/annotation-object-with-reordered-mods-differs', string_input=out['str'][:10], object_input=out_t[:10], **ctx)
     # mass conservation over the zero-missed-cleavage peptides
     zero = sorted(tuple(x) for x in pt.digest(s, rx, missed_cleavages=0, semi=False, return_type='str-span'))
     zero = sorted(zero, key=lambda t: t[1])
